@@ -184,7 +184,9 @@ class BaseSimfile(OrderedDict, Serializable, metaclass=ABCMeta):
 
     def serialize(self, file: TextIO):
         for (key, value) in self.items():
-            if key in BaseSimfile.MULTI_VALUE_PROPERTIES:
+            if value is None:
+                param = MSDParameter((key,))
+            elif key in BaseSimfile.MULTI_VALUE_PROPERTIES:
                 param = MSDParameter((key, *value.split(":")))
             else:
                 param = MSDParameter((key, value))
